@@ -37,14 +37,16 @@ func (s *SqliteKV) ListKeys(ctx context.Context, prefix []byte) ([]*protocol.Key
 		var (
 			key   []byte
 			flags uint8
+			vlen  int64
 		)
-		if err := rows.Scan(&key, &flags); err != nil {
+		if err := rows.Scan(&key, &flags, &vlen); err != nil {
 			return nil, err
 		}
 		if !bytes.HasPrefix(key, prefix) {
 			continue
 		}
-		if flags&SimpleFlag != 0 {
+		// an empty simple value counts as absent, as in the memory backend
+		if flags&SimpleFlag != 0 && vlen > 0 {
 			keys = append(keys, &protocol.KeyComposite{
 				Type: protocol.KeyComposite_SIMPLE,
 				Key:  key,
